@@ -46,6 +46,7 @@ class Alphabet:
             "P6": (None, "m", {"a": x}, {"v": 1}),
             "P7": (t[2], "n", {"a": x + "\n" + y}, {"v": -1.5}),
             "P8": (t[2], "m", {"b": y}, {"v": 2.5, "w": 3}),
+            "PF": (_dt.datetime(2030, 1, 2, tzinfo=UTC), "m", {"a": x}, {"v": 1}),   # later than the virtual clock (2030-01-01)
             "P9": (t[2], "m", {}, {"v": 7}),                      # a second tag-less point (P4 has no tags either)
         }
         self._bind_update_fns()
@@ -147,6 +148,8 @@ class Alphabet:
             ("exists", "tags", ("a",)),
             ("exists", "tags", ("b",)),
             ("regex", "matches", "tags", ("a",), x[0], 0),
+            ("regex", "matches", "tags", ("a",), x.upper(), 0),
+            ("regex", "matches", "tags", ("a",), x.upper(), 2),     # same pattern, re.IGNORECASE
             ("regex", "search", "tags", ("a",), y.upper() if y.upper() != y else y.lower(), 2),
             ("test", "tags", ("a",), "starts_x", ()),
             ("test", "tags", ("a",), "is_none", ()),
@@ -213,6 +216,8 @@ class Alphabet:
             ("exists", "tags", ("b",)),
             ("cmp", "tags", (("map", "rekey"), "z"), "==", x),
             ("regex", "matches", "tags", ("a",), x[0], 0),
+            ("regex", "matches", "tags", ("a",), x.upper(), 0),
+            ("regex", "matches", "tags", ("a",), x.upper(), 2),     # same pattern, re.IGNORECASE
             ("cmp", "fields", ("v",), "==", None),
         ]
         return R[:n]
